@@ -95,6 +95,17 @@
        address left behind by the previous build that used the pooled `interim`.  The
        shipped reader never follows it (F16).  Here: for D# = 0 the section addresses of
        the record at offset 0 are not followed (name and framing still are).
+   F19 Normalisation (decided with the model's owner): Merge skips every input thesaurus
+       whose FST is empty (vellum hands out no iterator for an empty FST), so re-merging
+       a segment whose thesaurus lost all its terms DROPS the synonym section, while the
+       model (`mergeThes`) keeps an empty thesaurus record.  Same content: a thesaurus
+       with no LHS terms is treated as absent on BOTH sides before comparing.
+   F20 Vector sections are compared on `opt` and the multiset of documents only (metric,
+       dimension, vectors live in the opaque engine blob).  For a MERGED section the file
+       records the optimisation type of the FIRST input (flushSectionMetadata:
+       indexes[0]) although the index is built for the LAST one; the model records the
+       last.  They differ only if inputs disagree on `opt` for one field, which no
+       generator produces (zapx assumes it cannot happen).
    F18 Synonym ids are file-local names: one counter per batch over ALL thesauri in New
        (`sidNext`), one per field in Merge.  The comparison with the model is therefore
        modulo renaming (codes are resolved to (synonym term, doc) through the file's own
@@ -181,6 +192,124 @@ def uvAll (what : String) (bs : Bytes) : R (List Nat) :=
         | none => throw s!"{what}: truncated uvarint"
         | some (v, rest) => go fuel rest (acc.push v)
   go (bs.length + 1) bs #[]
+
+/-! ### snappy and the doc-value framing, array based
+
+`Codec.snappyDecode` / `Codec.contentDecode` are list based and quadratic in the size of
+the uncompressed block (fine for the proofs, too slow for 1024-document doc-value
+chunks).  The decoders below are linear; on small inputs (`crossCheckMax`) their result
+is compared with the `Codec` ones, so that every small test file also ties the two. -/
+
+def crossCheckMax : Nat := 512
+
+def leAt (b : ByteArray) (pos n : Nat) : Nat :=
+  (List.range n).foldr (fun i a => (b.get! (pos + i)).toNat + 256 * a) 0
+
+/-- Snappy block format (https://github.com/google/snappy/blob/main/format_description.txt)
+    in [pos, lim): uvarint uncompressed length, then literal / copy elements. -/
+def snappyFast (b : ByteArray) (pos lim : Nat) : R ByteArray := do
+  if lim > b.size then throw s!"snappy block [{pos},{lim}) runs past the end of the file"
+  let (n, p0) ← uvLim b pos lim
+  if n > 2 ^ 32 then throw s!"snappy block at {pos}: uncompressed length {n} too large"
+  let mut out := ByteArray.emptyWithCapacity n
+  let mut p := p0
+  for _ in [0:lim - pos] do
+    if p ≥ lim then break
+    let tag := (b.get! p).toNat
+    if tag % 4 = 0 then
+      let l := tag / 4
+      let mut len := l + 1
+      let mut q := p + 1
+      if l ≥ 60 then
+        let nb := l - 59
+        if p + 1 + nb > lim then throw s!"snappy block at {pos}: literal length runs past the block"
+        len := leAt b (p + 1) nb + 1
+        q := p + 1 + nb
+      if q + len > lim then throw s!"snappy block at {pos}: literal runs past the block"
+      for k in [0:len] do
+        out := out.push (b.get! (q + k))
+      p := q + len
+    else
+      let mut len := 0
+      let mut off := 0
+      let mut q := p
+      if tag % 4 = 1 then
+        if p + 2 > lim then throw s!"snappy block at {pos}: copy element runs past the block"
+        len := 4 + (tag / 4) % 8
+        off := (tag / 32) * 256 + (b.get! (p + 1)).toNat
+        q := p + 2
+      else if tag % 4 = 2 then
+        if p + 3 > lim then throw s!"snappy block at {pos}: copy element runs past the block"
+        len := tag / 4 + 1
+        off := leAt b (p + 1) 2
+        q := p + 3
+      else
+        if p + 5 > lim then throw s!"snappy block at {pos}: copy element runs past the block"
+        len := tag / 4 + 1
+        off := leAt b (p + 1) 4
+        q := p + 5
+      if off = 0 ∨ off > out.size then throw s!"snappy block at {pos}: copy offset {off} outside the {out.size} bytes produced"
+      for _ in [0:len] do
+        out := out.push (out.get! (out.size - off))
+      p := q
+  if out.size ≠ n then throw s!"snappy block at {pos}: produced {out.size} bytes, header says {n}"
+  if lim - pos ≤ crossCheckMax then
+    match Codec.snappyDecode (ofBA (b.extract pos lim)) with
+    | some r => if r ≠ ofBA out then throw s!"snappy block at {pos}: Codec.snappyDecode disagrees with the array decoder"
+    | none => throw s!"snappy block at {pos}: Codec.snappyDecode rejects what the array decoder accepts"
+  return out
+
+/-- Doc-value region [s, e) (F12): per chunk the (doc, value) pairs. -/
+def contentFast (b : ByteArray) (s e : Nat) : R (List (List (Nat × Bytes))) := do
+  if e < s ∨ e > b.size then throw s!"doc values [{s},{e}) outside the file"
+  if e - s < 16 then throw s!"doc values [{s},{e}): shorter than the 16-byte trailer"
+  let nChunks ← be b (e - 8) 8
+  let offLen ← be b (e - 16) 8
+  if offLen + 16 > e - s then throw s!"doc values [{s},{e}): chunk offsets ({offLen} bytes) do not fit"
+  if nChunks > offLen then throw s!"doc values [{s},{e}): {nChunks} chunks cannot have {offLen} bytes of offsets"
+  let offsStart := e - 16 - offLen
+  let mut p := offsStart
+  let mut offs : Array Nat := Array.mkEmpty nChunks
+  let mut prev := 0
+  for _ in [0:nChunks] do
+    let (o, p') ← uvLim b p (e - 16)
+    if o < prev then throw s!"doc values [{s},{e}): chunk end offsets decrease"
+    offs := offs.push o
+    prev := o
+    p := p'
+  if p ≠ e - 16 then throw s!"doc values [{s},{e}): chunk offsets do not fill their declared {offLen} bytes"
+  if prev ≠ offsStart - s then throw s!"doc values [{s},{e}): chunks end at {prev}, data is {offsStart - s} bytes"
+  let mut out : Array (List (Nat × Bytes)) := Array.mkEmpty nChunks
+  for ci in [0:nChunks] do
+    let st := if ci = 0 then 0 else offs[ci - 1]!
+    let en := offs[ci]!
+    if st ≥ en then
+      out := out.push []
+    else
+      let lim := s + en
+      let (nd, q0) ← uvLim b (s + st) lim
+      if nd > en - st then throw s!"doc values [{s},{e}): chunk {ci}: {nd} documents do not fit"
+      let mut q := q0
+      let mut metas : Array (Nat × Nat) := Array.mkEmpty nd
+      for _ in [0:nd] do
+        let (d, q1) ← uvLim b q lim
+        let (o, q2) ← uvLim b q1 lim
+        metas := metas.push (d, o)
+        q := q2
+      let raw ← snappyFast b q lim
+      let mut start := 0
+      let mut vals : Array (Nat × Bytes) := Array.mkEmpty nd
+      for m in metas do
+        if m.2 < start ∨ m.2 > raw.size then throw s!"doc values [{s},{e}): chunk {ci}: value of doc {m.1} ends at {m.2}, outside [{start},{raw.size}]"
+        vals := vals.push (m.1, ofBA (raw.extract start m.2))
+        start := m.2
+      if start ≠ raw.size then throw s!"doc values [{s},{e}): chunk {ci}: {raw.size - start} bytes belong to no document"
+      out := out.push vals.toList
+  if e - s ≤ crossCheckMax then
+    match Codec.contentDecode (ofBA (b.extract s e)) with
+    | some r => if r ≠ out.toList then throw s!"doc values [{s},{e}): Codec.contentDecode disagrees with the array decoder"
+    | none => throw s!"doc values [{s},{e}): Codec.contentDecode rejects what the array decoder accepts"
+  return out.toList
 
 /-! ### decoding context -/
 
@@ -358,16 +487,13 @@ def joinFF (ts : List Bytes) : Bytes := ts.flatMap (fun t => t ++ [255])
 
 def decDV (c : Ctx) (s e : Nat) : R (List (Nat × List Bytes)) := do
   if e < s then throw s!"doc values: end {e} before start {s}"
-  let raw ← slice c.b s (e - s)
-  match Codec.contentDecode raw with
-  | none => throw s!"doc values [{s},{e}): framing / snappy not decodable"
-  | some chunks =>
-    let all := chunks.flatten
-    if !ascNat (all.map (·.1)) then throw s!"doc values [{s},{e}): documents not strictly ascending"
-    if all.any (fun p => p.1 ≥ c.numDocs) then throw s!"doc values [{s},{e}): document number ≥ numDocs"
-    all.mapM (fun p => match splitFF p.2 with
-      | some ts => pure (p.1, ts)
-      | none => throw s!"doc values [{s},{e}): value of doc {p.1} does not end with the 0xff separator")
+  let chunks ← contentFast c.b s e
+  let all := chunks.flatten
+  if !ascNat (all.map (·.1)) then throw s!"doc values [{s},{e}): documents not strictly ascending"
+  if all.any (fun p => p.1 ≥ c.numDocs) then throw s!"doc values [{s},{e}): document number ≥ numDocs"
+  all.mapM (fun p => match splitFF p.2 with
+    | some ts => pure (p.1, ts)
+    | none => throw s!"doc values [{s},{e}): value of doc {p.1} does not end with the 0xff separator")
 
 def decInverted (c : Ctx) (addr : Nat) : R (List (Bytes × PostRep) × Option (List (Nat × List Bytes))) := do
   let (dvs, p) ← uv c.b addr
@@ -386,17 +512,15 @@ def decStoredDoc (c : Ctx) (doc off : Nat) : R StoredDoc := do
   let (ml, p) ← uv b off
   let (dl, p) ← uv b p
   let metaBytes ← slice b p ml
-  let data ← slice b (p + ml) dl
+  if p + ml + dl > b.size then throw s!"stored doc {doc}: data runs past the end of the file"
   let ms ← uvAll s!"stored doc {doc} meta" metaBytes
   match ms with
   | [] => throw s!"stored doc {doc}: empty meta (no id length)"
   | idLen :: groups =>
-    if idLen > data.length then throw s!"stored doc {doc}: id length {idLen} exceeds data length {dl}"
-    let id := data.take idLen
-    let raw ← match Codec.snappyDecode (data.drop idLen) with
-      | some r => pure r
-      | none => throw s!"stored doc {doc}: snappy data not decodable"
-    let rawA := raw.toArray
+    if idLen > dl then throw s!"stored doc {doc}: id length {idLen} exceeds data length {dl}"
+    let id ← slice b (p + ml) idLen
+    let rawB ← snappyFast b (p + ml + idLen) (p + ml + dl)
+    let rawA := (ofBA rawB).toArray
     let rec go (fuel : Nat) (g : List Nat) (acc : Array StoredVal) : R (List StoredVal) :=
       match fuel with
       | 0 => pure acc.toList
@@ -626,8 +750,13 @@ def codeStr (c : Option Bytes × Nat) : String :=
   | some t => s!"({hx t}, doc {c.2})"
   | none => s!"(unknown id, doc {c.2})"
 
+/-- F19: a thesaurus without LHS terms is the same content as no thesaurus. -/
+def normThes : Option Thes → Option Thes
+  | some t => if t.terms.isEmpty then none else some t
+  | none => none
+
 def diffThes (want got : Option Thes) : Option String :=
-  match want, got with
+  match normThes want, normThes got with
   | none, none => none
   | some _, none => some "thesaurus: in the model, no synonym section in the file"
   | none, some _ => some "thesaurus: synonym section in the file, none in the model"
